@@ -16,6 +16,8 @@ C06.f carried bytes count towards the minimum: the limit of the initial bulk rea
   previous cut fell inside the 4 KiB read buffer, i.e. on read history instead of content.
 C06.g the validator's lower bound for chunk_min_size is at least the read-ahead buffer length - 1 (interval facts of
   R-ARITH): the carry (< buffer length) can then never exceed min_size.
+C06.h chunkers are built from the configuration passed in: Rabin tables from config.poly() at each construction, no
+  process-wide cache (OnceLock/Lazy/thread_local) in between.
 C06.e the fixed-size chunker reads at most `size` bytes per chunk and stops at a short read.
 """
 import re
@@ -39,6 +41,41 @@ def run(ctx, rep):
                   ("C06.f", "bytes carried in the read-ahead buffer count towards min_size"),
                   ("C06.g", "accepted min_size covers the largest possible carry")):
         rep.rule(r, tx)
+    # ---- C06.h: every chunker is parameterised by ITS repository's configuration --------------------------------
+    rep.rule("C06.h", "the chunker's polynomial and size parameters come from the configuration passed in (no process-wide cache)")
+    FC = prog.find1(r"^rustic_core::chunker::ChunkIter::<R>::from_config$")
+    news = [(bb, t) for bb, t in FC.calls() if "callee" in t and re.search(r"chunker::(rabin|fixed_size)::ChunkIter::<R>::new$", callee(t))]
+    rep.require("C06.h", "constructors", len(news) == 2, where=FC.loc(), what="from_config builds the rabin and the fixed-size chunker")
+    for bb, t in news:
+        kind = "rabin" if "rabin" in callee(t) else "fixed_size"
+        bad = []
+        nparam = 0
+        for ai, a in enumerate(t["args"]):
+            if op_place(a) is None:
+                continue
+            orig = flow.origins(FC, op_place(a))
+            for o in orig:
+                if o.kind == "arg":
+                    continue                      # reader / size_hint / config itself
+                if o.kind == "call":
+                    c_ = o.data[1]
+                    if re.search(r"configfile::ConfigFile::(poly|chunk_size|chunk_min_size|chunk_max_size|chunker)$|Rabin64::new_with_polynom$|ops::Try>::branch$", c_):
+                        nparam += 1
+                        continue
+                    bad.append(strip_crate(c_))
+                elif o.kind in ("static", "const", "item"):
+                    bad.append(str(o.data)[:60])
+        if kind == "rabin":
+            # the Rabin64 tables are built here from config.poly()
+            rb = [(b2, t2) for b2, t2 in FC.calls() if "callee" in t2 and callee(t2).endswith("Rabin64::new_with_polynom")]
+            okp = len(rb) == 1 and any(c.endswith("ConfigFile::poly") for c in flow.backward_slice(FC, op_place(rb[0][1]["args"][1]))["calls"]) if rb else False
+            okp = okp and (rb[0][0] in flow.backward_slice(FC, op_place(t["args"][0]))["call_sites"] if rb and op_place(t["args"][0]) else False)
+            statics = [c for _, t2 in FC.calls() if "callee" in t2 for c in [callee(t2)] if re.search(r"OnceLock|OnceCell|LazyLock|Lazy<|lazy_static|thread_local|LocalKey", c)]
+            rep.check("C06.h", "rabin/polynomial-from-config", okp and not statics and not bad, where=where(FC, bb),
+                      what="the Rabin tables handed to the chunker are built in from_config from config.poly() of the configuration passed in" if okp and not statics and not bad else
+                           f"the Rabin fingerprint handed to the chunker does not (only) come from this configuration's polynomial (process-wide cache / other source: {sorted(set(statics + bad))[:3]}): a second repository in the same process is chunked with the first one's polynomial")
+        else:
+            rep.check("C06.h", "fixed_size/size-from-config", not bad, where=where(FC, bb), what="the fixed chunk size comes from the configuration passed in")
     from rules import arith
     arith.run_c06(ctx, rep)
     # ---- C06.g: the carry never exceeds the minimum chunk size -------------------------------------------
